@@ -8,7 +8,11 @@ The answer built by the real slow-path processor is walked back through the real
 DataplaneTrace.tla (Prop = C10): every router forwards the answer, it is handed to the source host's
 underlay address; a traceroute request is answered exactly once, by the router that owns the flagged
 interface, reporting (local ISD-AS, that interface).
-Exhaustive: Dataplane.tla (honest journeys incl. reversal = the machinery the answer relies on)."""
+Exhaustive: Dataplane.tla — InjectFault (an on-path egress interface down, all hop fields of an on-path
+AS expired, a router-alert flag on an on-path interface) + DataplaneOps!ScmpReply (transcription of the
+path part of prepareSCMP: reverse, revert the cross-over, SegID update + increment on external links);
+invariant AnswersComeBack.  (With the pre-fix check order — SCMP 'path expired' raised before the
+ingress SegID update — TLC produces the counterexample of /repo 9f23998.)"""
 import _dp
 
 
